@@ -74,9 +74,9 @@ func hasLong(m *su.RefMap) bool {
 func runProof(k *kernel.K) {
 	quiet()
 	s := &psim{k: k, g: &gen{k: k}, disk: simdisk.NewDisk()}
-	s.absentInRequest = k.Bool(1, 5, "knob-absent-keys-in-request")
-	s.hashedComplete = k.Bool(1, 4, "knob-hashed-values-on-clean-channel")
-	s.emptyComplete = k.Bool(1, 4, "knob-empty-values-on-clean-channel")
+	s.absentInRequest = knob(k, 1, 5, "absent-keys-in-request")
+	s.hashedComplete = knob(k, 1, 4, "hashed-values-on-clean-channel")
+	s.emptyComplete = knob(k, 1, 4, "empty-values-on-clean-channel")
 	s.tries = state.NewTries()
 	ss, err := state.NewStorageState(s.disk.Open(), nil, s.tries)
 	if err != nil {
